@@ -85,14 +85,36 @@ func (m SliceDotsMatcher) Match(got reflect.Value, d data.Data, r Region) (data.
 		return d, false
 	}
 
-	for i, section := range m.Sections[1:] {
-		idx, d, ok = findSection(m.Dots[i], section, gotItems, d, r, idx)
+	return m.matchSections(1, gotItems, d, r, idx)
+}
+
+// matchSections matches m.Sections[i:] against got[idx:]. Each "..." takes
+// the shortest run of items after which the rest of the pattern matches: if
+// the rest does not match after the first place where the next section
+// matches, later places are tried too.
+func (m SliceDotsMatcher) matchSections(i int, got []reflect.Value, d data.Data, r Region, idx int) (data.Data, bool) {
+	if i == len(m.Sections) {
+		return d, idx == len(got)
+	}
+
+	dots, section := m.Dots[i-1], m.Sections[i]
+	for from := idx; from <= len(got); from++ {
+		newIdx, newD, ok := findSection(dots, section, got, d, r, idx, from)
 		if !ok {
 			return d, false
 		}
+
+		if resD, ok := m.matchSections(i+1, got, newD, r, newIdx); ok {
+			return resD, true
+		}
+
+		// The section matched at got[newIdx-len(section):newIdx] but the
+		// rest of the pattern didn't match after it. Look for the section
+		// further down the list.
+		from = newIdx - len(section)
 	}
 
-	return d, idx == len(gotItems)
+	return d, false
 }
 
 // Returns Region for items[start:end].
@@ -128,13 +150,14 @@ func matchPrefix(want []Matcher, got []reflect.Value, d data.Data, r Region, idx
 	return idx + len(want), d, true
 }
 
-// findSection attempts to match want starting at got[idx], moving onto idx+1,
-// idx+2, and so on until a match is found. Returns the new index for the
-// remaining matches.
+// findSection attempts to match want starting at got[from], moving onto
+// from+1, from+2, and so on until a match is found. Items in got[idx:] before
+// the match are considered skipped by the "...". Returns the new index for
+// the remaining matches.
 //
 // Invariant: If ok is true, a list of skipped items will have been pushed to
 // Data.
-func findSection(dots token.Pos, want []Matcher, got []reflect.Value, d data.Data, r Region, idx int) (newIdx int, _ data.Data, ok bool) {
+func findSection(dots token.Pos, want []Matcher, got []reflect.Value, d data.Data, r Region, idx, from int) (newIdx int, _ data.Data, ok bool) {
 	// Special case: Looking for "..." at the end of the list. Skip everything
 	// in got.
 	if len(want) == 0 {
@@ -143,7 +166,7 @@ func findSection(dots token.Pos, want []Matcher, got []reflect.Value, d data.Dat
 		return matchPrefix(want, got, d, r, len(got))
 	}
 
-	for i := idx; i < len(got); i++ {
+	for i := from; i < len(got); i++ {
 		r := sectionRegion(got, r, idx, i)
 		newIdx, newD, ok := matchPrefix(want, got, pushSliceDotsSkipped(d, dots, got[idx:i], r), r, i)
 		if ok {
